@@ -19,8 +19,8 @@ class C13(Prop):
         "user localized to the learned engine id. non-trivial = the stamped boots/time changed at least once after discovery or an engine id "
         "was learned; distinct = abstract trace + sequence of distinct (boots,time) stamps"
     )
-    quick_runs = 1200
-    thorough_runs = 20000
+    quick_runs = 10000
+    thorough_runs = 150000
 
     def families(self, tier):
         return [("history", 1)]
